@@ -214,6 +214,34 @@ func VerifC30_ringConcurrent() {
 	verifReached("c30-ring-concurrent")
 }
 
+// Several pushers parked on a full bounded ring (maxLen 2): every one of them must resume as
+// space frees, however the worker's drops interleave with their wake-ups.
+func VerifC30_ringManyBlocked() {
+	if verifThorough() {
+		verifPreemptions(5)
+	} else {
+		verifPreemptions(3)
+	}
+	w := &verifC30World{}
+	w.r.initMaxLen(2)
+	go w.pusher(100, 2, true) // fills the ring
+	go w.pusher(200, 1, false)
+	go w.pusher(300, 1, false)
+	if verifThorough() {
+		go w.pusher(400, 1, false)
+	}
+	verifRunAll()
+	n := 3
+	if verifThorough() {
+		n = 4
+	}
+	verifAssert(w.done == n, "no pusher stays parked once the ring has space")
+	verifAssert(!w.overlap, "never two workers handle elements at once")
+	verifAssert(len(w.handled) == w.accepted && w.accepted == n+1, "every element is accepted and handled exactly once")
+	verifAssert(verifBlockedCount() == 0, "no goroutine is left blocked")
+	verifReached("c30-ring-many-blocked")
+}
+
 // ---------- workLoop ----------
 
 type verifC30Latch struct {
